@@ -230,6 +230,8 @@ class Ctx:
         name = name or ("trace_" + module)
         env = {"TRACE": os.path.abspath(trace),
                "JAVA_TOOL_OPTIONS": "-Dtlc2.tool.queue.IStateQueue=StateDeque"}
+        if os.environ.get("KNOWN"):
+            env["KNOWN"] = os.environ["KNOWN"]
         r = self.tlc(tladir, module, cfg, workers=1, timeout=timeout, xmx=xmx, env=env,
                      name=name, allow_violation=True)
         # trace runs do not count as model states
